@@ -134,6 +134,9 @@ func OwnedBy(m Mismatch, a map[string]any, prop string) bool {
 		if (prop == "C03" || prop == "C04") && (m.Kind == "tcp.bind" || m.Kind == "tcp.bound") {
 			return true
 		}
+		if prop == "C03" && m.Kind == "tcp.nonowner" {
+			return true // a request of a user who does not own the allocation had an effect
+		}
 		if prop == "C05" && m.Kind == "tcp.pipe~" {
 			return true
 		}
